@@ -313,6 +313,14 @@ def run(rep):
     rep.guarded("R-C01-siblings", rule_siblings)
     rep.guarded("R-C01-cutoff-lower", lambda r: rule_cutoff(r, "R-C01-cutoff-lower", "lower"))
     rep.guarded("R-C01-ola", rule_ola)
+    import paramflow
+    rep.guarded("R-C02-params-flow", paramflow.run)
+    rep.floor("R-C02-params-flow", 49)
+    rep.clause("R-C02-params-flow", "the user's sinc_len / oversampling_factor / f_cutoff / window reach make_sincs in their own positions on every construction path (shared with C02)")
+    # "zero-padded": every element the transforms read was written earlier in the same call (signal half copied, padding half cleared in full)
+    rep.guarded("R-C10-scratch", lambda r: fftunit.rule_scratch(r, "R-C10-scratch"))
+    rep.floor("R-C10-scratch", 5)
+    rep.clause("R-C10-scratch", "FFT unit: each work buffer is completely rewritten (signal copied, padding zeroed over its whole length, spectrum tail cleared) before a transform reads it (shared with C10)")
     import C15
     rep.guarded("R-C15-lanes", lambda r: C15.run_all_kernels(r, "R-C15-lanes"))
     # "for every way of chunking the stream": the buffer-carry rules of C05 for the two sinc types
